@@ -75,7 +75,11 @@ type Ctl struct {
 }
 
 func (c *Ctl) Kind() string           { return "ctl" }
-func (c *Ctl) Caps() schema.Caps      { return schema.FullCaps() }
+func (c *Ctl) Caps() schema.Caps {
+	cp := schema.FullCaps()
+	cp.KeyTypes = []string{"int64", "uint8", "enum", "decimal64"}
+	return cp
+}
 func (c *Ctl) GenOpts() model.GenOpts { return model.DefaultGen() }
 func (c *Ctl) ListsAsSets() bool      { return false }
 func (c *Ctl) ZeroIsUnset() bool      { return false }
